@@ -246,3 +246,16 @@ def shrink(case):
             if not o.startswith("S"):
                 out.append(Case("%s %s %s" % (t0, rs, ",".join(ops[:i] + ops[i + 1:])), "shrink"))
     return out
+
+
+def extra_evidence(ctx):
+    """The harness works under /tmp/C31-<pid>/ and removes it on exit; a harness process that was killed (sanitizer abort of
+    a mutant, time-out) cannot, so directories of dead processes are removed here."""
+    import glob
+    import os
+    import shutil
+    for d in glob.glob("/tmp/C31-[0-9]*"):
+        pid = d.rsplit("-", 1)[1]
+        if pid.isdigit() and not os.path.exists("/proc/" + pid):
+            shutil.rmtree(d, ignore_errors=True)
+    return {}
